@@ -127,6 +127,22 @@ Theorem c02_iv_size : forall O g o encv e,
   perform_decrypt O g o = Err EValue.
 Proof. exact iv_size_rejected. Qed.
 
+(* non-vacuity: the recorded token with its IV cut by one octet is refused with ValueError by the model *)
+Example c02_iv_size_nonvacuous :
+  match ex_dir_cbc with
+  | CDecCompact t g v k s _ =>
+      match extract_compact (table_oracles t) v k s with
+      | Ok o =>
+          let o' := {| j_ser := j_ser o; j_prot := j_prot o; j_unprot := j_unprot o; j_aad := j_aad o;
+                       j_b64prot := j_b64prot o; j_iv := removelast (j_iv o); j_ct := j_ct o; j_tag := j_tag o;
+                       j_recips := j_recips o |} in
+          match perform_decrypt (table_oracles t) g o' with Err EValue => true | _ => false end
+      | Err _ => false
+      end
+  | _ => false
+  end = true.
+Proof. vm_compute. reflexivity. Qed.
+
 (* ---- 6. epk: validating import, curve gate, then ECDH ---- *)
 Theorem c02_epk : forall O a e hs r tag k,
   dec_auk O a e hs r tag = Ok k ->
@@ -140,6 +156,24 @@ Theorem c02_epk : forall O a e hs r tag k,
                      o_ecdh O (k_id (r_key r)) (k_id sk) = Ok zs /\
                      derive_key_for_concat_kdf O (ze ++ zs) hs (ee_cek_size e) (ea_key_size a) tag = Ok k).
 Proof. exact dec_auk_epk. Qed.
+
+(* non-vacuity: the recorded ECDH-ES token reaches dec_auk = Ok in the model *)
+Example c02_epk_nonvacuous :
+  match ex_es_gcm with
+  | CDecCompact t g v k s _ =>
+      match extract_compact (table_oracles t) v k s with
+      | Ok o =>
+          match j_recips o, find_alg (asc "ECDH-ES"), find_enc (asc "A128GCM"),
+                headers Compact (j_prot o) PNone PNone with
+          | r :: _, Some a, Some e, Ok hs =>
+              match dec_auk (table_oracles t) a e hs r None with Ok _ => true | Err _ => false end
+          | _, _, _, _ => false
+          end
+      | Err _ => false
+      end
+  | _ => false
+  end = true.
+Proof. vm_compute. reflexivity. Qed.
 
 Theorem c02_epk_import_fails : forall O a e hs r tag ex,
   fam_is (ea_family a) "ECDH1PU" = false ->
@@ -182,6 +216,13 @@ Theorem c02_respelled_header_rejected : forall O
   forall e cek iv ct tag a a' m,
   Produced e cek iv a ct tag -> a' <> a -> enc_decrypt O e ct tag cek iv a' <> Ok m.
 Proof. exact respelled_header_rejected. Qed.
+
+(* the ideal-primitive premises are satisfiable (trivially, by the full relation): the theorems are not
+   vacuous; their strength is exactly the strength of the [Produced] / [Wrapped] one plugs in *)
+Example c02_tamper_premise_satisfiable : forall O,
+  exists Produced : jwe_enc_row -> bytes -> bytes -> bytes -> bytes -> bytes -> Prop,
+    forall e cek iv aad ct tag m, enc_decrypt O e ct tag cek iv aad = Ok m -> Produced e cek iv aad ct tag.
+Proof. intro O. exists (fun _ _ _ _ _ _ => True). intros. exact I. Qed.
 
 Theorem c02_tamper_ek_aeskw : forall O (Wrapped : bytes -> bytes -> bytes -> Prop),
   (forall kek ek c, o_kw_unwrap O kek ek = Ok (Some c) -> Wrapped kek ek c) ->
